@@ -362,3 +362,71 @@ def check_C16(chk):
     return chk.finish(rule="cases = builder call histories with valid and invalid calls; every (reachable builder state, call) pair once, reached by a "
                            "shortest history, followed by a completion and the conversion; result, every observable after every call and the "
                            "converted vector's content are compared; distinct = distinct history prefixes")
+
+
+def check_C15(chk):
+    bins = vlib.build_harness(["dbg-native"])
+    maxu, maxv = (6, 6) if chk.thorough else (5, 5)
+    path, res = vlib.generate_cases(chk.work, "GenMS_run", "GenMS", cfg_consts({"MaxU": maxu, "MaxVals": maxv}) + GEN_TAIL, timeout=1500)
+    chk.add_tlc(res, "GenMS: all universes <= %d x all value sequences of <= %d values (non-decreasing ones answered, others must be refused)" % (maxu, maxv),
+                {"behaviours": len(res.replay_lines)})
+    hist = gen_iter_histories(chk, maxu + 1)
+    st = "replay multiset cases by set / try_set / extend / try_from_iter, queries and two-ended iterator cover"
+    out = chk.run_harness(bins["dbg-native"], ["replay", "--kind", "ms", "--cases", path, "--histories", hist], st)
+    if out:
+        chk.add_replay(out, st)
+    chk.cov["exhaustive"] = True
+    stage_trace(chk, bins, "ms", "TraceMS", seeds=2 if chk.thorough else 1)
+    return chk.finish(rule="cases = (universe, value list, query, argument) on multiset sparse vectors built by three routes; plus iterator call "
+                           "histories over duplicates; distinct = distinct (universe, values, query, argument) with a non-empty value list")
+
+
+def stage_conv(chk, bins, callset, depth, nbits, family=None):
+    beh, res = vlib.generate_cases(chk.work, "GenConv_" + callset, "GenConv", cfg_consts({"Depth": depth, "CallSet": '"%s"' % callset}) + GEN_TAIL)
+    chk.add_tlc(res, "GenConv: all histories of depth %d over the object machine (%s)" % (depth, callset), {"behaviours": len(res.replay_lines)})
+    contents, r2 = vlib.generate_cases(chk.work, "GenBV_conv", "GenBV",
+                                       cfg_consts({"N": nbits, "Mode": '"bits"', "FamilyLens": "{}", "RLClasses": "{}", "RLMaxRuns": 0, "RLTails": "{}", "SpreadPos": "{}", "SpreadK": 0}) + GEN_TAIL)
+    chk.add_tlc(r2, "GenBV contents <= %d bits" % nbits, {"behaviours": len(r2.replay_lines)})
+    st = "replay object-machine histories (%s, depth %d) x all contents <= %d bits" % (callset, depth, nbits)
+    out = chk.run_harness(bins["dbg-native"], ["replay", "--kind", "conv", "--cases", beh, "--contents", contents], st)
+    if out:
+        chk.add_replay(out, st, behaviours=len(res.replay_lines) * len(r2.replay_lines))
+    if family:
+        fam, r3 = vlib.generate_cases(chk.work, "GenBV_convfam", "GenBV",
+                                      cfg_consts({"N": 0, "Mode": '"family"', "FamilyLens": family, "RLClasses": "{}", "RLMaxRuns": 0, "RLTails": "{}", "SpreadPos": "{}", "SpreadK": 0}) + GEN_TAIL)
+        chk.add_tlc(r3, "GenBV boundary family %s" % family, {"behaviours": len(r3.replay_lines)})
+        short, r4 = vlib.generate_cases(chk.work, "GenConv_short_" + callset, "GenConv", cfg_consts({"Depth": 2, "CallSet": '"%s"' % callset}) + GEN_TAIL)
+        st = "replay object-machine histories (%s, depth 2) x boundary family" % callset
+        out = chk.run_harness(bins["dbg-native"], ["replay", "--kind", "conv", "--cases", short, "--contents", fam], st)
+        if out:
+            chk.add_replay(out, st, behaviours=len(r4.replay_lines) * len(r3.replay_lines))
+
+
+def check_C11(chk):
+    bins = vlib.build_harness(["dbg-native"])
+    stage_conv(chk, bins, "convert", 3, 8 if chk.thorough else 7, family="{63, 64, 65, 511, 512, 513}" if not chk.thorough else FAMILY_QUICK)
+    chk.cov["exhaustive"] = True
+    stage_trace(chk, bins, "conv", "TraceConv", seeds=2 if chk.thorough else 1)
+    return chk.finish(rule="cases = (content, initial type and builder decomposition, conversion chain of length <= 3); after every conversion the "
+                           "content, equality with and byte-identity to the directly built structure are compared; distinct = distinct (content, chain)")
+
+
+def check_C19(chk):
+    bins = vlib.build_harness(["dbg-native"])
+    stage_conv(chk, bins, "supports", 4, 7 if chk.thorough else 6, family="{63, 64, 65, 511, 512, 513, 4095, 4096, 4097}")
+    stage_format_nosupport(chk, bins)
+    chk.cov["exhaustive"] = True
+    stage_trace(chk, bins, "conv", "TraceConv", seeds=2 if chk.thorough else 1)
+    return chk.finish(rule="cases = (content, history of enable_* / serialize+load calls of depth 4 from a plain bitvector without supports): every "
+                           "reachable subset of supports in every order; after each call the reported subset, the content, every enabled answer, "
+                           "equality and byte-identity with the directly built structure with the same subset; finally enabling the rest must give "
+                           "the fully enabled original; plus composite structures loaded from files whose embedded bitvectors carry no supports and "
+                           "skip_option over every optional structure; distinct = distinct (content, history)")
+
+
+def stage_format_nosupport(chk, bins):
+    """Composite structures from files without support structures, skip_option: see the serialization stages."""
+    st = "composite structures (sparse, wavelet matrix core, wavelet matrix) loaded from files whose embedded bitvectors carry no support structures; skip_option over every optional"
+    out = chk.run_harness(bins["dbg-native"], ["replay", "--kind", "nosupport", "--cases", os.path.join(vlib.VERIF, "lib", "empty.ndjson"), "--seed", str(chk.seed), "--tier", chk.tier], st)
+    if out:
+        chk.add_replay(out, st)
